@@ -107,7 +107,7 @@ Proof.
     split; [|split].
     + apply steps_one.
       apply (step_bool_flag p i0 done cur fl got tok (o_arg o) r I Ctok Ftok Nr Kb' Ni').
-    + apply inert_after; [congruence | reflexivity | cbn [r_spec]; rewrite Kb'; reflexivity].
+    + apply inert_after; [congruence | reflexivity | rewrite needs_value_bool; [reflexivity | exact Kb']].
     + unfold given_after, is_value_form. rewrite Fo.
       eapply st_nm_after_set; eauto.
       * intros K. rewrite Kb' in K. discriminate.
@@ -136,7 +136,7 @@ Proof.
     split; [|split].
     + apply steps_one.
       apply (step_inverse_flag p i0 done cur fl got sv _ (o_arg o) r I Csv Fnone Finv Ftgt Nr Kb' Ni').
-    + apply inert_after; [congruence | reflexivity | cbn [r_spec]; rewrite Kb'; reflexivity].
+    + apply inert_after; [congruence | reflexivity | rewrite needs_value_bool; [reflexivity | exact Kb']].
     + unfold given_after, is_value_form. rewrite Fo.
       eapply st_nm_after_set; eauto.
       * intros K. rewrite Kb' in K. discriminate.
